@@ -148,8 +148,8 @@ Proof.
           -- constructor. exact I. apply (IH (C b :: r)); auto.
         * rewrite sr_CM. constructor. exact I. apply (IH (M j :: r)); auto.
         * rewrite sr_CN. constructor. exact I. apply (IH (N j :: r)); auto.
-      + rewrite sr_M. constructor; auto.
-      + rewrite sr_N. constructor; auto. }
+      + rewrite sr_M. constructor; auto. apply IH; auto.
+      + rewrite sr_N. constructor; auto. apply IH; auto. }
   apply (G (List.length s)). lia.
 Qed.
 End Rep.
@@ -167,9 +167,10 @@ Proof.
   pose proof (sreplace2_atoms_ok "+" "+" "+" mag name s H) as H1.
   pose proof (sreplace2_atoms_ok "-" "-" "+" mag name _ H1) as H2.
   pose proof (sreplace2_atoms_ok "+" "-" "-" mag name _ H2) as H3.
-  rewrite <- (sreplace2_bridge "+" "+" "+" eq_refl eq_refl mag name _ s (le_n _) H).
-  rewrite <- (sreplace2_bridge "-" "-" "+" eq_refl eq_refl mag name _ _ (le_n _) H1).
-  rewrite <- (sreplace2_bridge "+" "-" "-" eq_refl eq_refl mag name _ _ (le_n _) H2).
-  rewrite <- (sreplace2_bridge "-" "+" "-" eq_refl eq_refl mag name _ _ (le_n _) H3).
-  reflexivity.
+  pose proof (sreplace2_bridge "+" "+" "+" eq_refl eq_refl mag name _ s (le_n _) H) as B1.
+  pose proof (sreplace2_bridge "-" "-" "+" eq_refl eq_refl mag name _ _ (le_n _) H1) as B2.
+  pose proof (sreplace2_bridge "+" "-" "-" eq_refl eq_refl mag name _ _ (le_n _) H2) as B3.
+  pose proof (sreplace2_bridge "-" "+" "-" eq_refl eq_refl mag name _ _ (le_n _) H3) as B4.
+  unfold fl in B1, B2, B3, B4.
+  rewrite <- B1, <- B2, <- B3, <- B4. reflexivity.
 Qed.
